@@ -710,6 +710,35 @@ for i_ in range(8 if Q else 60):
                            timetraces="rng.normal, regenerated by seed and tier"), failing_input_found=True)
         break
 
+# several Python threads image different frames of the same size at the same time (the kernels release the GIL: a thread pool
+# over the frames of a scan is ordinary use): every image is the image of ITS OWN frame, bit for bit the sequential one
+from concurrent.futures import ThreadPoolExecutor as _TPE  # noqa: E402
+for i_ in range(2 if Q else 10):
+    nel_c, ns_c, P_c = 8, 160, 6000
+    specs_ = [gen_random(rng, bool(i_ % 2), nel_c, ns_c, P_c, "fmc") for _ in range(3)]
+    for sp_ in specs_[1:]:        # same focal law geometry and time axis, other samples and weights
+        for k_ in ("dt", "t0", "ltx", "lrx", "atx", "arx"):
+            sp_[k_] = specs_[0][k_]
+    use_amp_ = bool(i_ % 4 >= 2)
+    interp_ = "linear" if i_ % 2 else "nearest"
+    pairs_ = [build(sp_, use_amp_, True) for sp_ in specs_]
+    seq_ = [np.asarray(das.delay_and_sum(fr_, fl_, fillvalue=0.0, interpolation=interp_)) for fr_, fl_ in pairs_]
+    order_ = [int(k_) for k_ in rng.integers(0, len(pairs_), 24)]
+    with _TPE(max_workers=4) as ex_:
+        futs_ = [ex_.submit(das.delay_and_sum, pairs_[k_][0], pairs_[k_][1], fillvalue=0.0, interpolation=interp_) for k_ in order_]
+        conc_ = [np.asarray(f_.result()) for f_ in futs_]
+    evaluations += len(order_)
+    chk.count(concurrent_calls=f"{interp_}{'+amplitudes' if use_amp_ else ''}, 4 threads, 3 frames of one size with weights")
+    wrong_ = [j_ for j_, (k_, im_) in enumerate(zip(order_, conc_)) if not np.array_equal(im_, seq_[k_], equal_nan=True)]
+    if wrong_:
+        j_ = wrong_[0]
+        chk.violation("das:concurrent-calls", f"delay_and_sum called from 4 Python threads at once on frames of the same size: {len(wrong_)} of {len(order_)} "
+                      "images differ from the image of their own frame computed alone",
+                      dict(interpolation=interp_, amplitudes=use_amp_, weights=True, numelements=nel_c, numsamples=ns_c, numpoints=P_c,
+                           frame_of_first_wrong_image=order_[j_], max_abs_difference=float(np.nanmax(np.abs(conc_[j_] - seq_[order_[j_]]))),
+                           predicate="each concurrent image == the same call made alone (bit for bit)", data="gen_random, seed and tier"), failing_input_found=True)
+        break
+
 # complex timetrace weights (a per-channel gain-and-phase calibration) on REAL samples: the image is linear in the weights,
 # I(w_re + i w_im) = I(w_re) + i I(w_im), for every kernel of the mean family
 for i_ in range(6 if Q else 60):
